@@ -282,4 +282,50 @@ MUTANTS = [
          new="                        try:\n                            x = preprocess(x)\n                        except Exception as e:\n                            x = getattr(self, '_last_pre_err', None) or e\n                            self._last_pre_err = x\n\n                # If it's an exception, short-circuit to output."),
     dict(id='C04-m6', prop='C04', file='mpserver/_servlet.py', desc='ensemble all-failed rule off by one: EnsembleError when all but one member failed',
          old="                        if all(isinstance(v, RemoteException) for v in z['y']):", new="                        if sum(isinstance(v, RemoteException) for v in z['y']) >= max(1, nn - 1) and nn > 2:"),
+    # ---------------- C11
+    dict(id='C11-m1', prop='C11', file='mpserver/_server.py', desc='D12 regression: servlet stopped before the onboarding thread has flushed (exit hangs after an abandoned stream over pipes)',
+         old="""            self._input_buffer.put(None)
+            self._onboard_thread.join()
+        self.servlet.stop()
+        self._gather_thread.join()
+        self._clear_ledger()""",
+         new="""            pass
+        self.servlet.stop()
+        self._gather_thread.join()
+        if self._onboard_thread is not None:
+            self._input_buffer.put(None)
+            self._onboard_thread.join()
+        self._clear_ledger()"""),
+    dict(id='C11-m2', prop='C11', file='mpserver/_servlet.py', desc='ThreadServlet.stop joins only the first worker',
+         old="""        assert self._started
+        self._q_in.put(None)
+        for w in self._workers:
+            w.join()
+        self._workers = []
+        self._started = False
+
+    @property
+    def input_queue_type(self):
+        return 'thread'""",
+         new="""        assert self._started
+        self._q_in.put(None)
+        for w in self._workers[:1]:
+            w.join()
+        self._workers = []
+        self._started = False
+
+    @property
+    def input_queue_type(self):
+        return 'thread'"""),
+    dict(id='C11-m3', prop='C11', file='mpserver/_worker.py', desc='single-mode worker does not re-broadcast the stop sentinel to fellow workers',
+         old="                if z is None:\n                    q_in.put(z)  # broadcast to one fellow worker\n                    q_out.put(z)\n                    break",
+         new="                if z is None:\n                    q_out.put(z)\n                    break"),
+    dict(id='C11-m4', prop='C11', file='mpserver/_servlet.py', desc='EnsembleServlet.stop does not reset its state (second start asserts / reuses queues)',
+         old="        for t in self._threads:\n            t.join()\n        self._reset()\n        self._started = False", new="        for t in self._threads:\n            t.join()\n        self._started = False"),
+    dict(id='C11-m5', prop='C11', file='mpserver/_servlet.py', desc='D11 regression in SequentialServlet: earlier members left running when a later member fails to start',
+         old="                for ss in self._servlets[:i]:\n                    ss.stop()\n                self._qs = []\n                raise", new="                self._qs = []\n                raise"),
+    dict(id='C11-m6', prop='C11', file='mpserver/_server.py', desc='D26 regression: ledger not cleared on exit',
+         old="        for fut in list(self._uid_to_futures.values()):\n            fut.cancel()\n        self._uid_to_futures.clear()", new="        pass"),
+    dict(id='C11-m7', prop='C11', file='mpserver/_servlet.py', desc='SwitchServlet.stop forgets to stop its enqueue thread when it has a single member',
+         old="        self._qin.put(None)\n        self._thread_enqueue.join()\n        self._reset()", new="        if len(self._servlets) > 1:\n            self._qin.put(None)\n            self._thread_enqueue.join()\n        self._reset()"),
 ]
